@@ -5,6 +5,7 @@ import Ajson.Model.Encode
 import Ajson.Model.Mutate
 import Ajson.Spec.Ref
 import Ajson.Proofs.ReadFrame2
+import Ajson.Proofs.QuoteRoundTrip
 
 namespace Ajson.Props.C04
 open Ajson Ajson.Heap
@@ -21,6 +22,23 @@ theorem html_bytes_escaped : Gen.htmlSafeSet.getD 60 false = false ∧ Gen.htmlS
   decide +kernel
 
 theorem hex_table : Gen.hex = "0123456789abcdef".toUTF8.toList := by decide +kernel
+
+/-- **Strings and keys are always emitted as valid JSON strings.** For EVERY Go string `s` (every byte, every rune,
+invalid UTF-8, `<>&`, U+2028/9, control characters): what `quoteString` writes, followed by the closing quote, is
+accepted by the table-free reference scanner of RFC 8259 strings, which stops exactly after that quote. Re-proved
+against the regenerated escape set and hex table on every run. -/
+theorem C04_quoted_is_json_string (s rest : Bytes) (i : Nat) :
+    Spec.scanStringBody (quoteString s ++ 34 :: rest) i = .ok (rest, i + (quoteString s).length + 1) :=
+  quoteString_is_json_string_body s rest i
+
+/-- **… and they read back to the same string after UTF-8 coercion.** Unquoting `"` ++ quoteString s ++ `"` yields `s` with
+every ill-formed byte replaced by U+FFFD, for EVERY byte string `s`. -/
+theorem C04_quote_unquote (s : Bytes) : unquoteBytes ([34] ++ quoteString s ++ [34]) 34 = some (coerceUtf8 s) :=
+  quote_unquote s
+
+/-- well-formed strings read back unchanged -/
+theorem C04_quote_unquote_valid (s : Bytes) (h : validUtf8 s = true) : unquoteBytes ([34] ++ quoteString s ++ [34]) 34 = some s := by
+  rw [quote_unquote]; simp only [validUtf8, beq_iff_eq] at h; rw [h]
 
 /-- a value JSON cannot express is reported as an error: a modified Numeric node whose payload is NaN or ±Inf
 makes Marshal fail (every fuel ≥ 1, every formatter) -/
